@@ -68,6 +68,19 @@ pub fn check_triple(n: usize, a: Option<i64>, b: Option<i64>, c: Option<i64>, st
         }
         Some(cv) => spellings.push(format!("xs[{}:{}:{}]", fmt_opt(a), fmt_opt(b), cv)),
     }
+    // the grammar's number is ["-"] 1*DIGIT: leading zeros are allowed and change nothing
+    if n <= 4 {
+        let pad = |x: Option<i64>| match x {
+            None => String::new(),
+            // a '-' must be followed by a non-zero digit (lexical rule fixed by C03): negative components stay as they are
+            Some(v) if v < 0 => v.to_string(),
+            Some(v) => format!("{:012}", v),
+        };
+        match c {
+            None => spellings.push(format!("xs[{}:{}]", pad(a), pad(b))),
+            Some(cv) => spellings.push(format!("xs[{}:{}:{}]", pad(a), pad(b), pad(Some(cv)))),
+        }
+    }
     let rc = value_to_var(&doc);
     for sp in &spellings {
         st.states += 1;
@@ -413,7 +426,7 @@ pub fn run(tier: Tier) -> i32 {
         Err(e) => rep.assumptions.push(format!("python3 cross-validation skipped: {}", e)),
     }
     rep.guard("non-empty selections occur", st.nontrivial > 100);
-    rep.rule = "all (array length, start, stop, step) triples over the window +-(n+2) plus the i32 extremes, each omission pattern, through the string interface and Variable::slice; all indexes over the same value set; non-array subjects. Oracle: Python slice.indices rule in i128 arithmetic (cross-validated against python3). non-trivial = the rule selects at least one element The bare slice node (hand-built Ast::Slice through Expression::new, alone and as the left operand of ||) over 14 subjects x 14 x 14 x 9 (start, stop, step): arrays keep nulls, non-arrays give null, step 0 is an error.".into();
+    rep.rule = "all (array length, start, stop, step) triples over the window +-(n+2) plus the i32 extremes, each omission pattern, through the string interface and Variable::slice; all indexes over the same value set; non-array subjects. Oracle: Python slice.indices rule in i128 arithmetic (cross-validated against python3). non-trivial = the rule selects at least one element The bare slice node (hand-built Ast::Slice through Expression::new, alone and as the left operand of ||) over 14 subjects x 14 x 14 x 9 (start, stop, step): arrays keep nulls, non-arrays give null, step 0 is an error. Non-negative components also zero-padded to 12 digits.".into();
     rep.bounds = json!({"max_array_len": nmax, "wide_extremes": wide});
     rep.stats = st;
     rep.finish()
